@@ -27,6 +27,7 @@ const LITERALS: &[&str] = &[
     "0", "1", "255", "256", "-1", "-128", "32767", "32768", "65535", "65536", "2147483647", "2147483648", "4294967296", "99999999999",
     "0x0", "0xff", "0xffff", "0xffffffff", "0x100000000", "0xFFFFFFFFFFFFFFFF", "0777", "077777777777777", "08", "'a'", "'\\n'", "'\\''", "''",
     "\"str\"", "\"\"", "\"unterminated", "1/0", "(1/0)", "1<<40", "1<<-1", "-2147483648", "--5", "0x", "1e5", "1.5", "0b101",
+    "(-2147483647 - 1)", "~0x7fffffff", "-2147483647", "0x80000000",
 ];
 
 fn tokenize(src: &str) -> Vec<String> {
@@ -166,6 +167,11 @@ const SEEDS: &[&str] = &[
 ];
 
 const TEMPLATES: &[&str] = &[
+    "unsigned char a, r;\nvoid main() { switch (a) { } r = @; }\n",
+    "unsigned char a, r;\nvoid main() { switch (a) { case 1: case 2: } r = 1; }\n",
+    "unsigned char a, r;\nvoid main() { switch (@) { default: } }\n",
+    "unsigned char r;\nvoid main() { r = (@ - 1) / -1; r = @ / -1; r = (-2147483647 - 1) / @; }\n",
+    "unsigned char r;\nvoid main() { r = (@ * -1) / (@ - @); r = ~@ / -1; r = (@ << 1) / -1; }\n",
     "unsigned char a = @;\nvoid main() {}\n",
     "const char k = @;\nvoid main() {}\n",
     "unsigned char t[@];\nvoid main() {}\n",
@@ -282,8 +288,20 @@ pub fn judge_total(kind: &str, idx: u64, class: &str, src: &[u8], opts: &Opts, s
             match e.kind.as_str() {
                 "Syntax" | "Compiler" => {
                     let in_file = e.filename == opts.input_name;
+                    // a location in an included file: the file must be one of the include
+                    // directories' and have that line
+                    let mut in_include = false;
+                    if !in_file {
+                        for d in &opts.include_dirs {
+                            if let Ok(t) = std::fs::read_to_string(format!("{}/{}", d, e.filename)) {
+                                let n = t.bytes().filter(|b| *b == b'\n').count() as u32 + 1;
+                                in_include = e.line >= 1 && e.line <= n;
+                                break;
+                            }
+                        }
+                    }
                     // errors raised before any position is known used to carry line 0
-                    if !(in_file && e.line >= 1 && e.line <= nlines) {
+                    if !(in_file && e.line >= 1 && e.line <= nlines) && !in_include {
                         res.class = "Err with a location outside the input".into();
                         res.violate(
                             &sig_override.clone().unwrap_or(format!("location:{}", crate::common::norm_msg(&e.msg))),
@@ -386,6 +404,9 @@ pub fn c16_pins() -> Vec<C16Pin> {
         C16Pin { name: "insert_code_truncation_inside_character", src: || { let mut l = "r = 1; ".repeat(36); l.truncate(251); format!("unsigned char r;\nvoid main() {{\n{} r='\u{20ac}'; r = 3;\n r = 2;\n}}\n", l) }, argv_extra: &["--insert-code"] },
         C16Pin { name: "inline_function_calling_itself", src: || "unsigned char a, n;\ninline void f() { for (n = 0; n != 3; n++) { a++; } if (a != 9) f(); }\nvoid main() { f(); }\n".into(), argv_extra: &[] },
         C16Pin { name: "header_including_itself", src: || { let d = "/verif/work/c16inc"; let _ = std::fs::create_dir_all(d); let _ = std::fs::write(format!("{}/selfinc.h", d), "#include \"selfinc.h\"\nunsigned char q;\n"); "#include \"selfinc.h\"\nvoid main() {}\n".into() }, argv_extra: &["-I", "/verif/work/c16inc"] },
+        C16Pin { name: "directive_error_after_include", src: || { let d = "/verif/work/c16inc"; let _ = std::fs::create_dir_all(d); let _ = std::fs::write(format!("{}/defs1.h", d), "unsigned char hv;\n"); "unsigned char a;\n#include \"defs1.h\"\n\n\n\n#if VERBOSE\nunsigned char b;\n#endif\nvoid main() {}\n".into() }, argv_extra: &["-I", "/verif/work/c16inc"] },
+        C16Pin { name: "switch_without_case_bodies", src: || "unsigned char a, r;\nvoid main() { switch (a) { } switch (a) { case 1: case 2: } r = 1; }\n".into(), argv_extra: &[] },
+        C16Pin { name: "int_min_divided_by_minus_one", src: || "#define INT_MIN (-2147483647 - 1)\n#define SCALE -1\nunsigned char r;\nvoid main() { r = (-2147483647 - 1) / -1; r = (INT_MIN / SCALE) >> 24; r = ~0x7fffffff / -1; }\n".into(), argv_extra: &[] },
         // recorded finding
         C16Pin { name: "deep_blocks_5000", src: || nesting(1, 5000), argv_extra: &[] },
     ]
@@ -439,8 +460,14 @@ impl Monitor for C16 {
                 if pin.argv_extra.contains(&"--insert-code") {
                     o.insert_code = true;
                 }
+                let mut take_dir = false;
                 for a in pin.argv_extra {
-                    if let Some(d) = a.strip_prefix("-D") {
+                    if take_dir {
+                        o.include_dirs.push(a.to_string());
+                        take_dir = false;
+                    } else if *a == "-I" {
+                        take_dir = true;
+                    } else if let Some(d) = a.strip_prefix("-D") {
                         o.defines.push(d.to_string());
                     }
                 }
